@@ -1,3 +1,8 @@
+/* Reproducer (C04/C19 finding, not C20): [sdcz]gstrf keeps factoring after an exactly zero pivot.
+ * Build against the check's asan library (has hook H1 slu_verif_ienv) and the harness allocator:
+ *   LIB=$(ls .work/tree-*/asan/libslu.a | head -1)
+ *   gcc -w -O1 -g -fsanitize=address,undefined -DSLU_VERIF -I/repo/SRC -Iharness findings/gstrf_zero_pivot_repro.c harness/common.c $LIB -lm -o gs
+ *   ASAN_OPTIONS=detect_leaks=0 ./gs 7     -> SEGV at cpanel_bmod.c:364 <- cgstrf.c:365 (tuned);  ./gs -> info = 4 (default tuning) */
 /* cgssv on a 10x10 matrix whose first column is stored as explicit zeros, tuning panel=2 relax=2
  * maxsuper=7 rowblk=200 colblk=4 fill=7 (hook H1) */
 #include "slu_cdefs.h"
